@@ -17,6 +17,8 @@ def sh(cmd, **kw):
 def main():
     d = os.path.abspath(sys.argv[1])
     props = [a for a in sys.argv[2:] if a.startswith("C")]
+    if "--scratch" in sys.argv:
+        return scratch(d, props)
     tier = "quick"
     patch = os.path.join(d, "patch.diff")
     demo = os.path.join(d, "demo.py")
@@ -47,6 +49,44 @@ def main():
                                 "lines": [ln[:300] for ln in lines[:2]]}
     finally:
         sh("git -C /repo checkout -- .")
+    print(json.dumps(out, indent=1))
+    return 0
+
+
+def scratch(d, props):
+    """Same protocol on a scratch worktree of /repo's HEAD (for use while a long
+    background run reads /repo): nothing under /repo is touched."""
+    wt = "/tmp/seedkeep_wt"
+    patch = os.path.join(d, "patch.diff")
+    demo = os.path.join(d, "demo.py")
+    sh(f"git -C /repo worktree remove --force {wt}; rm -rf {wt}")
+    if sh(f"git -C /repo worktree add --detach {wt} HEAD").returncode != 0:
+        print("cannot create worktree")
+        return 2
+    out = {"dir": d, "scratch_worktree": True}
+    try:
+        r = sh(f"cd {wt} && PYTHONPATH={wt} /venv/bin/python {demo}")
+        out["demo_clean_rc"] = r.returncode
+        r = sh(f"git -C {wt} apply {patch}")
+        if r.returncode != 0:
+            print("PATCH DOES NOT APPLY:", r.stderr[:300])
+            return 2
+        r = sh(f"{VERIF}/tools/run_tests.sh {wt}")
+        out["tests_ok"] = r.returncode == 0
+        out["tests"] = r.stdout.strip().splitlines()[:3]
+        r = sh(f"cd {wt} && PYTHONPATH={wt} /venv/bin/python {demo}")
+        out["demo_patched_rc"] = r.returncode
+        out["demo_out"] = (r.stdout + r.stderr)[-300:]
+        out["checks"] = {}
+        for p in props:
+            t0 = time.time()
+            r = sh(f"cd {VERIF} && VERIF_REPO={wt} VERIF_EVIDENCE_DIR=/tmp/seedkeep_ev "
+                   f"./check {p} --tier quick", timeout=1800)
+            lines = [ln for ln in r.stdout.splitlines() if ln.startswith(("VIOLATION", "violation:"))]
+            out["checks"][p] = {"rc": r.returncode, "wall": round(time.time() - t0, 1),
+                                "lines": [ln[:300] for ln in lines[:2]]}
+    finally:
+        sh(f"git -C /repo worktree remove --force {wt}; rm -rf {wt} /tmp/seedkeep_ev")
     print(json.dumps(out, indent=1))
     return 0
 
